@@ -21,6 +21,7 @@ import scipy.sparse as sp
 
 from .. import ops, snap
 from ..env import xgi
+from .. import suite
 from . import common
 
 PID = "C04"
@@ -34,6 +35,7 @@ RULE = (
     "case = (provenance recipe, seeded base network with hostile explicit IDs: 0, non-increasing, negative, True, 2.0, numpy ints, digit strings cast back to int) "
     "followed by 1-6 additions (automatic and explicit IDs, all bulk formats); one evaluation = the three clauses after one addition. "
     "distinct_nontrivial = distinct (provenance, addition kind, pre-state ids, new ids) tuples where the pre-state had at least one edge"
+    " | suite: the repository's own tests run under xgimon/suite_plugin.py; every outermost public boundary call on a network is one more evaluation"
 )
 ASSUMPTIONS = [
     "empty member lists are not used for the additions (added-or-skipped is left open, see C05)",
@@ -87,13 +89,14 @@ def colliding_ids_case(mon, rng):
 
 def plan(tier):
     n = len(PROVS)
-    return {"prov": n * (70 if tier == "quick" else 4000), "history": 6000 if tier == "quick" else 150000, "colliding": 300 if tier == "quick" else 30000}
+    return {"prov": n * (70 if tier == "quick" else 4000), "history": 6000 if tier == "quick" else 150000, "colliding": 300 if tier == "quick" else 30000, "suite": 1}
 
 
 def floors(tier):
     f = {f"prov:{name}": 3 for name in PROVS}
     f.update({"additions-checked": 3000, "auto-ids-checked": 1500, "dup-explicit-ids-checked": 100, "unprobed-ok": 1,
               "history-then:pickle": 100, "history-then:copy": 100, "history-then:ctor": 100, "history-then:relabel": 100})
+    f["suite:evaluations"] = 500  # boundary calls of the repository's own tests observed by the same oracle
     return f
 
 
@@ -821,6 +824,8 @@ def _flat_req(m, di):
 
 
 def run_case(mon, kind, idx, rng):
+    if kind == "suite":  # the repository's own tests as a workload, observed by xgimon/suite_plugin.py
+        return suite.run(mon, PID, mon.tier)
     hist = []
     if kind == "colliding":
         return colliding_ids_case(mon, rng)
